@@ -115,6 +115,54 @@ class Body:
             return True
         return block not in self.reachable(0, removed_edges=tuple(edges))
 
+    def correlated_infeasible_edges(self, block):
+        """edges that cannot lie on a path to `block` because of an enum discriminant the path must have: when one variant edge of a
+        switch on a never-reassigned place dominates `block`, every other switch on the same place can only take that variant's
+        edge on the way there (a second `match` on the same value, an early-return guard followed by the real match, ...)"""
+        sws = []
+        for sb, sw in self.switches():
+            src = self.bool_operand_source(sw["op"])
+            if src and src["kind"] == "discr" and src.get("vars"):
+                sws.append((sb, sw, src))
+        # places written in this body (an assignment or a mutable borrow of the scrutinee invalidates the correlation)
+        dirty = set()
+        for blk in self.blocks:
+            for st in blk["st"]:
+                d = st["d"]
+                if d["p"]:
+                    dirty.add(self.origin(d["l"], tuple(d["p"]))[0])
+                if st["rv"]["k"] in ("Ref", "RawPtr") and st["rv"].get("mut"):
+                    dirty.add(self.origin(st["rv"]["p"]["l"], tuple(st["rv"]["p"]["p"]))[0])
+        need = {}
+        for sb, sw, src in sws:
+            if src["origin"][0] in dirty:
+                continue
+            for v, tb in sw["targets"]:
+                name = src["vars"].get(v)
+                if name is not None and tb != sw["otherwise"] and self.edges_dominate([(sb, tb)], block) and sb != block:
+                    # only when this target is not shared with another variant
+                    if sum(1 for _, t2 in sw["targets"] if t2 == tb) == 1:
+                        need[src["origin"]] = name
+        out = set()
+        for sb, sw, src in sws:
+            want = need.get(src["origin"])
+            if want is None:
+                continue
+            listed = {src["vars"].get(v) for v, _ in sw["targets"]}
+            for v, tb in sw["targets"]:
+                if src["vars"].get(v) != want:
+                    out.add((sb, tb))
+            if want in listed:
+                out.add((sb, sw["otherwise"]))
+        # never remove an edge that is the only way the required variant is taken
+        return {e for e in out if not any(e == (sb, tb) and src["vars"].get(v) == need.get(src["origin"]) for sb, sw, src in sws for v, tb in sw["targets"])}
+
+    def edges_dominate_correlated(self, edges, block):
+        """edges_dominate, ignoring paths that contradict the enum variant `block` is reached under"""
+        if block not in self.live_blocks():
+            return True
+        return block not in self.reachable(0, removed_edges=tuple(set(edges) | self.correlated_infeasible_edges(block)))
+
     def block_dominates(self, a, b):
         if b not in self.live_blocks():
             return True
@@ -271,6 +319,9 @@ class Body:
                     for e in p["p"]:
                         if e.startswith("[_"):
                             work.append((int(e[2:-1]), ()))
+                elif k == "Agg" and rv.get("ak") == "tuple" and proj and proj[0].startswith(".") and proj[0][1:].isdigit() and int(proj[0][1:]) < len(rv.get("o", ())):
+                    # field-sensitive through tuples: `(a, b).1` depends on b only
+                    self._push_op(rv["o"][int(proj[0][1:])], work, pv)
                 else:
                     for o in rv.get("o", ()):
                         self._push_op(o, work, pv)
@@ -304,6 +355,29 @@ class Body:
             return [(bi, hit[0])]
         return [(bi, t["otherwise"])]
 
+    def through_tuple(self, pl):
+        """`(a, b).N` read back from a tuple built in this body: the place (or constant operand) that was stored there. A tuple match
+        `match (x, y) { (true, Some(v)) => .. }` switches on fields of such a temporary."""
+        depth = 0
+        while pl is not None and pl.get("p") and depth < 8:
+            depth += 1
+            first = pl["p"][0]
+            if not (first.startswith(".") and first[1:].isdigit()) or 1 <= pl["l"] <= self.argc:
+                break
+            d = self.single_def(pl["l"])
+            if not (d and d[1] != "t" and d[2]["rv"]["k"] == "Agg" and d[2]["rv"].get("ak") == "tuple"):
+                break
+            ops = d[2]["rv"]["o"]
+            i = int(first[1:])
+            if i >= len(ops):
+                break
+            o = ops[i]
+            inner = o.get("c") or o.get("m")
+            if inner is None:
+                return None, o
+            pl = {"l": inner["l"], "p": list(inner["p"]) + list(pl["p"][1:])}
+        return pl, None
+
     def bool_operand_source(self, op):
         """If a switch operand is a bool temp computed from a call / field, describe it:
         returns dict(kind='call', callee, block, negated) | dict(kind='place', origin, negated) | None."""
@@ -312,6 +386,9 @@ class Body:
         depth = 0
         while pl is not None and depth < 20:
             depth += 1
+            pl, konst = self.through_tuple(pl)
+            if pl is None:
+                return {"kind": "const", "k": konst["k"], "negated": neg}
             l = pl["l"]
             if pl["p"] or 1 <= l <= self.argc:
                 return {"kind": "place", "origin": self.origin(l, tuple(pl["p"])), "negated": neg}
@@ -336,7 +413,9 @@ class Body:
             if rv["k"] == "Bin":
                 return {"kind": "bin", "op": rv["op"], "o": rv["o"], "negated": neg, "block": d[0]}
             if rv["k"] == "Discr":
-                return {"kind": "discr", "p": rv["p"], "origin": self.origin(rv["p"]["l"], tuple(rv["p"]["p"])), "negated": neg, "vars": rv.get("vars"), "ty": rv.get("ty")}
+                dp, _k = self.through_tuple(rv["p"])
+                dp = dp or rv["p"]
+                return {"kind": "discr", "p": dp, "origin": self.origin(dp["l"], tuple(dp["p"])), "negated": neg, "vars": rv.get("vars"), "ty": rv.get("ty")}
             return {"kind": "rv", "rv": rv, "negated": neg}
         return None
 
